@@ -280,7 +280,7 @@ def feature_resim(ctx, block):
     N = world.N
     base_spot = world.spot.clone()
     base_second = None if world.second is None else world.second.clone()
-    second_name = market.TWO_FACTOR.get(w["ul"])
+    second_name = hw.TWO_FACTOR.get(w["ul"])
     rounds = block["rounds"]
     scripts = []
     for name in rounds:
@@ -424,12 +424,41 @@ def hedge_loop(ctx, block):
     if not kit.state_dependent:
         raise AssertionError("hedge_loop family needs a state-dependent hedger")
     cls_tag = f"H{'1' if H == 1 else '>1'}"
+    hedger, recorder, original = kit.hedger, kit.recorder, None
+    if block.get("copy"):
+        # the loop runs on copy.deepcopy(hedger), taken before the original was ever used ('before') or
+        # after it hedged once ('after'): the copy is a hedger of its own - its prev_hedge is ITS last
+        # output, and the original's state is not touched by it
+        import copy
+        original = kit.hedger
+        if block["copy"] == "after":
+            first = _run_world(w)
+            ok, _ = _guard(ctx, site, f"loop:{cls_tag}", desc, block,
+                           lambda: original.compute_hedge(first.d, hedge=first.hedge))
+            if not ok:
+                return
+        hedger = copy.deepcopy(original)
+        recorder = hedger.model
+        recorder.log = []
+        orig_state = original._buffers.get("prev_output")
+        orig_snapshot = None if orig_state is None else orig_state.clone()
+        cls_tag += f":deepcopy_{block['copy']}"
+        desc += f" on copy.deepcopy(hedger) taken {block['copy']} the original's first use"
     ok, hedge = _guard(ctx, site, f"loop:{cls_tag}", desc, block,
-                       lambda: kit.hedger.compute_hedge(world.d, hedge=world.hedge))
+                       lambda: hedger.compute_hedge(world.d, hedge=world.hedge))
     if not ok:
         return
-    final_state = kit.hedger.get_buffer("prev_output")
-    trace = kit.recorder.log
+    final_state = hedger.get_buffer("prev_output")
+    trace = recorder.log
+    if original is not None:
+        now = original._buffers.get("prev_output")
+        if (now is None) != (orig_state is None) or (now is not None and (
+                now is not orig_state or not HL.same(now, orig_snapshot))):
+            ctx.violation(site, f"loop:copy_writes_state_of_original:{cls_tag}",
+                          f"evaluating the copy changed prev_output of the ORIGINAL hedger ({desc})",
+                          observed=None if now is None else list(now.shape),
+                          expected=None if orig_state is None else "unchanged " + str(list(orig_state.shape)),
+                          block=block)
     features_at = _parts_fn(kit, world, ctx.seed)
     bad = HL.conform(trace, features_at, N, H, T, world.dtype, final_state=final_state,
                      exact_part=features_at.exact, rtol=hw.tol(world.dtype), atol=hw.tol(world.dtype))
@@ -540,7 +569,7 @@ def _apply_unguarded(sysm, op):
         else:
             bufs = {"spot": world.spot.clone()}
             if world.second is not None:
-                bufs[market.TWO_FACTOR[world.w["ul"]]] = world.second.clone()
+                bufs[hw.TWO_FACTOR[world.w["ul"]]] = world.second.clone()
             sim = market.ScriptedSimulate(world.p, [bufs])
             out = hedger.compute_loss(world.d, hedge=world.hedge, n_paths=world.N)
             sim.remove()
@@ -640,7 +669,7 @@ def hedge_ops(ctx, block):
 def _loss_via_scripted_simulate(kit, world):
     bufs = {"spot": world.spot.clone()}
     if world.second is not None:
-        bufs[market.TWO_FACTOR[world.w["ul"]]] = world.second.clone()
+        bufs[hw.TWO_FACTOR[world.w["ul"]]] = world.second.clone()
     sim = market.ScriptedSimulate(world.p, [bufs])
     try:
         loss = kit.hedger.compute_loss(world.d, hedge=world.hedge, n_paths=world.N, enable_grad=False)
@@ -690,7 +719,8 @@ def branches(ctx, block):
         res[mode] = out
         exact, N, H = kit.exact, world.N, world.H
         assert kit.state_dependent == (mode == "stepwise")
-    desc = (f"model={m['model']} inputs={[hw.label(s) for s in kit.specs[:-1]]} {w['ul']}/{w.get('kind')}"
+    desc = (f"model={m['model']} module_mode={m.get('module_mode', 'train')} "
+            f"inputs={[hw.label(s) for s in kit.specs[:-1]]} {w['ul']}/{w.get('kind')}"
             f"{'' if w.get('call', True) else '/put'} H={H} N={N} {w.get('dtype', 'float64')}")
     site_of = {"hedge": "Hedger.compute_hedge", "pl": "Hedger.compute_pl",
                "portfolio": "Hedger.compute_portfolio", "loss": "Hedger.compute_loss"}
@@ -742,7 +772,8 @@ def branches(ctx, block):
                 exp = {"stepwise": b[r].tolist()}
                 mini = {"world": dict(w, rows=[int(world.orig[r])]), "model": m}
             last_only = what == "hedge" and bool(ok[..., :-1].all())
-            ctx.violation(site_of[what], f"branches:{what}{'_last_column' if last_only else ''}:{m['model']}",
+            ctx.violation(site_of[what], f"branches:{what}{'_last_column' if last_only else ''}:{m['model']}"
+                          + (":" + m["module_mode"] if m.get("module_mode") else ""),
                           f"{what} differs between the all-steps-at-once and the step-by-step evaluation of the "
                           f"same strategy ({desc})", observed=obs, expected=exp, block=mini)
     for mode in ("vectorised", "stepwise"):
@@ -753,7 +784,8 @@ def branches(ctx, block):
         if not ok.all():
             r = int((~ok).flatten(1).any(1).nonzero()[0])
             t = int((~ok)[r].any(0).nonzero()[0])
-            ctx.violation("Hedger.compute_hedge", f"reference_loop:{mode}:{'last_column' if t == T - 1 else 'value'}",
+            ctx.violation("Hedger.compute_hedge", f"reference_loop:{mode}:{'last_column' if t == T - 1 else 'value'}"
+                          + (":" + m["module_mode"] if m.get("module_mode") else ""),
                           f"{mode} compute_hedge differs from the reference step-by-step loop first at step {t} "
                           f"({desc})", observed={"path": world.spot[r].tolist(), "hedge": a[r].tolist()},
                           expected={"hedge": ref[r].tolist()},
@@ -838,7 +870,9 @@ def run(ctx):
              "vectors reached, transitions = per-path steps; non-trivial = steps entered with a non-zero state). "
              "hedge_ops: BFS to a fixpoint over call histories on one hedger (abstract state = shape/dtype of the "
              "stale prev_output). Worlds include derivatives whose own maturity is shorter / longer than the registered "
-             "time grid (shared underlier) and a short-dated listed hedge. branches: every state-independent model x world evaluated through both branches "
+             "time grid (shared underlier), a short-dated listed hedge, user subclasses of the primaries overriding "
+             "volatility/variance, and variance scripts with negative and zero entries; the loop is also run on copy.deepcopy(hedger) "
+             "taken before / after the original's first use. branches (train() and, on a sub-grid, eval() mode): every state-independent model x world evaluated through both branches "
              "and the reference loop (non-trivial = paths on which the position changes over time)")
     ctx.assume("the model is deterministic and row-wise; the hedger, not the model, is under test")
     ctx.assume("values of the 'empty' feature are never compared (uninitialised memory); it is only fed to Naked")
@@ -856,7 +890,7 @@ def run(ctx):
     # ---- (i)
     fblocks = []
     for ul in uls:
-        av = Av.get(market.TWO_FACTOR.get(ul))
+        av = Av.get(hw.TWO_FACTOR.get(ul))
         for kind in market.ALL_DERIVATIVE_KINDS:
             for call in ((True, False) if kind in market.OPTION_KINDS else (True,)):
                 for listed in (None, "dyadic", "bs", "varswap"):
@@ -879,11 +913,12 @@ def run(ctx):
                                 continue
                             if minor and (kind not in ("european", "variance_swap") or listed == "bs"):
                                 continue
-                            if ul in market.TWO_FACTOR and not call and kind != "european":
+                            if ul in hw.TWO_FACTOR and not call and kind != "european":
                                 continue
-                            if ul in market.TWO_FACTOR and listed == "bs" and kind not in ("european", "lookback"):
+                            if ul in hw.TWO_FACTOR and listed == "bs" and kind not in ("european", "lookback"):
                                 continue
                         fblocks.append({"world": w, "features": feature_specs(A, listed)})
+    rblocks_extra = []
     # ---- (ii)
     lblocks = []
     for ul, kind, hv, dtype in itertools.product(
@@ -897,7 +932,7 @@ def run(ctx):
                           or (dtype == "float32" and (ul != "brownian" or kind != "european"))
                           or (H == 2 and kind == "american_binary")):
             continue
-        av = Av.get(market.TWO_FACTOR.get(ul))
+        av = Av.get(hw.TWO_FACTOR.get(ul))
         for rows in (None, [ctx.seed % 7 + 3]):
             w = {"ul": ul, "kind": kind, "call": True, "T": T, "As": A, "Av": av, "dtype": dtype, "hedge": hv,
                  "rows": rows, "cost": 1 / 128}
@@ -907,6 +942,14 @@ def run(ctx):
                 if dtype == "float32" and m["model"] in ("bs", "ww"):
                     continue   # transcendental models are compared in float64 only
                 lblocks.append({"world": w, "model": m})
+    # copy.deepcopy(hedger): models using prev_hedge, H in {1, 2}
+    for ul, hv, mode in itertools.product(("brownian", "heston"), ("default", "ul+listed"), ("before", "after")):
+        H = 1 if hv == "default" else 2
+        w = {"ul": ul, "kind": "european", "call": True, "T": T, "As": As, "Av": Av.get(hw.TWO_FACTOR.get(ul)),
+             "dtype": "float64", "hedge": hv, "cost": 1 / 128}
+        for m in loop_models(H)[:5]:
+            if hw.model_ok(m, w):
+                lblocks.append({"world": w, "model": m, "copy": mode})
     # ---- (ii')
     oblocks = [{"A": As, "T": 4, "dtype": "float64", "row": 5}]
     if ctx.thorough:
@@ -914,7 +957,7 @@ def run(ctx):
     # ---- (iii)
     bblocks = []
     for ul in (["brownian", "heston", "local_vol", "rough_bergomi"] if ctx.quick else uls):
-        av = Av.get(market.TWO_FACTOR.get(ul))
+        av = Av.get(hw.TWO_FACTOR.get(ul))
         for kind in market.ALL_DERIVATIVE_KINDS:
             for call in ((True, False) if kind in market.OPTION_KINDS else (True,)):
                 for listed, hv in ((None, "default"), (None, "ul+listed"), ("dyadic", "default"),
@@ -932,6 +975,9 @@ def run(ctx):
                         if H == 2 and (ul != "heston" or kind not in ("european", "lookback", "variance_swap")):
                             continue
                         if listed and (ul == "local_vol" or kind not in ("european", "lookback", "forward_start")):
+                            continue
+                        if ul in ("heston", "local_vol") and (kind in ("european_binary", "american_binary")
+                                                               or (listed and kind != "european")):
                             continue
                     w = {"ul": ul, "kind": kind, "call": call, "T": T, "As": A, "Av": av, "dtype": "float64",
                          "listed": listed, "hedge": hv, "cost": 1 / 128}
@@ -990,6 +1036,31 @@ def run(ctx):
         for m in branch_models(None)[:4]:
             if hw.model_ok(m, w):
                 bblocks.append({"world": w, "model": m})
+    # USER SUBCLASSES of the primaries overriding documented properties (volatility term structure on a
+    # BrownianStock subclass, floored volatility on a HestonStock subclass) and variance scripts with negative
+    # and zero entries (register_buffer scenario sets; the volatility property clamps them at 0)
+    for ul, kind, av in itertools.product(("brownian_ts", "heston_user", "heston", "rough_bergomi"),
+                                          ("european", "lookback") if ctx.quick else market.OPTION_KINDS,
+                                          ("std", "neg")):
+        if (av == "neg") != (ul in ("heston", "rough_bergomi")):
+            continue
+        if ctx.quick and ul == "rough_bergomi" and kind != "european":
+            continue
+        w = {"ul": ul, "kind": kind, "call": True, "T": T, "As": As if ctx.quick else A,
+             "Av": None if ul == "brownian_ts" else ([-1 / 64, 0.0, 1 / 16] if av == "neg" else Av["variance"]),
+             "dtype": "float64", "hedge": "default", "cost": 1 / 128}
+        fblocks.append({"world": w, "features": [f for f in feature_specs(w["As"], None)
+                                                  if av == "std" or f.get("module") != "bs"]})
+        if av == "std":
+            rblocks_extra.append({"world": dict(w, listed=None), "features": feature_specs(w["As"], None),
+                                  "order": "step_first", "rounds": ["A", "reversed", "rolled", "A"], "reference": True})
+        for m in loop_models(1):
+            if hw.model_ok(m, w) and (av == "std" or m["model"] in ("linear", "user", "mlp")):
+                lblocks.append({"world": w, "model": m})
+        for m in branch_models(None):
+            if hw.model_ok(m, w) and (av == "std" or m["model"] not in ("bs",)) and not (
+                    av == "neg" and any(f.get("module") == "bs" for f in m.get("inputs", []))):
+                bblocks.append({"world": w, "model": {k: v for k, v in m.items() if k != "view"}})
     # long time grids (more than 256 / 512 steps; T = 257 and 513 leave a one-step remainder for any
     # implementation that works in blocks of 256): all periodic paths of period 3 over the alphabet
     for Tl, ul in itertools.product((257, 300, 513) if ctx.quick else (257, 300, 513, 1025), ("brownian", "heston")):
@@ -1016,11 +1087,31 @@ def run(ctx):
             continue
         for order, rounds in (("step_first", ["A", "reversed", "rolled", "A"]),
                               ("all_first", ["A", "interleaved", "reversed", "interleaved"])):
-            w = {"ul": ul, "kind": kind, "call": True, "T": T, "As": As if ul in market.TWO_FACTOR and ctx.quick else A,
-                 "Av": Av.get(market.TWO_FACTOR.get(ul)), "dtype": dtype, "listed": listed}
+            w = {"ul": ul, "kind": kind, "call": True, "T": T, "As": As if ul in hw.TWO_FACTOR and ctx.quick else A,
+                 "Av": Av.get(hw.TWO_FACTOR.get(ul)), "dtype": dtype, "listed": listed}
             if hw.world_ok(w):
                 rblocks.append({"world": w, "features": feature_specs(w["As"], listed), "order": order,
                                 "rounds": rounds, "reference": True})
+    # a large batch: more than 2^16 paths with a remainder (5^7 = 78125 = 65536 + 12589 paths), "any n_paths"
+    big = sorted(set(A) | {1.5, 0.75, 1.125})[:5]
+    wbig = {"ul": "brownian", "kind": "european", "call": True, "T": 7, "As": big, "Av": None, "dtype": "float64",
+            "hedge": "default", "cost": 1 / 128}
+    for m in branch_models(None)[:1] + ([{"model": "bs"}] if ctx.thorough else []):
+        bblocks.append({"world": wbig, "model": m})
+    # module mode: hedger.eval() (the mode price() runs in and the one fit() leaves behind) next to the default
+    # train() mode, for a sub-grid
+    evals = []
+    for b in bblocks:
+        wb, mb = b["world"], b["model"]
+        if mb["model"] not in ("linear", "mlp", "bs", "user") or wb.get("period") or wb.get("mat_k") is not None:
+            continue
+        if wb["ul"] not in ("brownian", "heston") or wb["kind"] not in ("european", "lookback") or not wb.get("call", True):
+            continue
+        if ctx.quick and (wb.get("listed") or wb["dtype"] != "float64" or (wb["ul"] == "heston" and mb["model"] != "linear")):
+            continue
+        evals.append({"world": wb, "model": dict(mb, module_mode="eval")})
+    bblocks += evals
+    rblocks += rblocks_extra
     ctx.info["blocks"] = {"feature_resim": len(rblocks), "feature_steps": len(fblocks), "hedge_loop": len(lblocks), "hedge_ops": len(oblocks),
                           "branches": len(bblocks)}
     if ctx.quick:
